@@ -349,18 +349,28 @@ func MergeErrors(p *load.Prog, r *oblig.Report, rule string) {
 			}
 			// finder
 			fcall, ok := idx.(*ssa.Call)
-			if !ok || fcall.Common().StaticCallee() == nil {
+			finder := ""
+			if ok {
+				if cal := fcall.Common().StaticCallee(); cal != nil {
+					finder = cal.Name()
+				} else if fv, isFn := li.Arg(fcall.Common().Value).(*ssa.Function); isFn {
+					finder = fv.Name() // the finder is handed to the constructor helper as a function value
+				}
+			}
+			if finder == "" {
 				r.Bad(rule, construct, pos, "the line index does not come from a line finder")
 				continue
 			}
-			finder := fcall.Common().StaticCallee().Name()
 			want := ""
 			for _, k := range kinds {
 				if strings.HasPrefix(msg, k.msg) {
 					want = k.finder
 				}
 			}
-			fargs := fcall.Common().Args
+			fargs := append([]ssa.Value{}, fcall.Common().Args...)
+			for i := range fargs {
+				fargs[i] = li.Arg(fargs[i])
+			}
 			switch {
 			case want == "":
 				r.Unknown(rule, construct, pos, "unknown kind of merge error: "+msg)
